@@ -16,8 +16,8 @@ Reading guide.
   debug_assert, overflow check, index check) or an out-of-bounds `get_unchecked`, in either profile.
   `no_panic` proves this for the whole pipeline `new; (sieve_block; next_block)^b; sieve_block; factor
   recovery at any position` on valid inputs (fresh tables); the other theorems say what is returned.
-  Which positions are reported (log accumulation, thresholds, u8 accumulators) is not modelled: the
-  theorems quantify over every position `r` of the block.
+  The theorems of this file quantify over every position `r` of the block; WHICH positions are reported (log
+  accumulation, thresholds, u8 accumulators) is modelled in Ymq/Model/SieveLog.lean, theorems in Props/C13Log.lean.
 * `Dividers::{modu16, modi64, divmod_uint}` are exact (`%`, `/`) by property C08
   (`Ymq.C08.modu16_spec`, `modi64_spec`); the u16/u32 arithmetic around them is explicit in the model.
 -/
